@@ -22,6 +22,18 @@ Tie to /repo:
       (in-place reconfigure / anneal / forest, slice+unslice, queries, a seeded call with another
       seed), on copies, and through the inplace variant on two copies and on the original
       (c17_worker.same_object_checks).  This is also the implementation-side oracle.
+
+Round 3:
+  (F'') `Generated/FactsC17Rng.lean`: skeletons of the variables that carry the seed / a generator
+      (harness/c17_rngflow.py), checked by the kernel with the verified analysis `RFlow.analyse`
+      (`C17.rng_dataflow_seeded`); the Python mirror of the analysis decides the edge modes of the
+      call graph and is compared with Lean's on every skeleton (`c17.rngflow`);
+  `rdSched`: pool results consumed in completion order (`as_completed`, `wait`) -- fourth source of
+      the flow model;  `parallel=` may be an executor object: the worker's OrderedPool completes
+      the futures FIFO / LIFO / shuffled (one order per interpreter), and the forest's rounds as
+      seen by the pool are compared with `Model/Gather.lean` (`c17.gather`);
+  the state of the global `random` / `numpy.random` generators is compared before / after every
+      seeded call (`Flow.clean_leaves_global_untouched`);  `c17.getrng`: every branch of get_rng.
 """
 
 import json
@@ -35,14 +47,20 @@ from . import c17_facts
 
 PROP = "C17"
 LEVEL = "proof"
-LEVEL_TEXT = ("Partial proof. Lean 4: noninterference of a three-source imperative semantics (seeded generator / "
-              "process-global generator / string-hash order) for every program whose reachable bodies read only the "
-              "seeded source; soundness of the table decision procedure; and the closed obligation, re-checked on "
-              "every run over the call graph extracted from /repo's AST, that no public callable with a `seed` "
-              "parameter of the enumerated families reaches the global generator, drops its seed, or consumes a "
-              "hash-ordered set in an order-sensitive way. That the extracted table covers the real bodies is not "
-              "proved: it is validated dynamically, API by API, in fresh interpreters under different "
-              "PYTHONHASHSEED and global-generator states.")
+LEVEL_TEXT = ("Partial proof. Lean 4: noninterference of a four-source imperative semantics (seeded generator / "
+              "process-global generator / string-hash order / completion order of the workers of an executor "
+              "pool) for every program whose reachable bodies read only the seeded source, and that such a program "
+              "leaves the global generator untouched; soundness of the table decision procedure; a data-flow "
+              "analysis of the variables that carry the seed / a generator, proved sound, re-run by the kernel on "
+              "the skeletons extracted from /repo's AST on every run (no sink -- get_rng(x), f(seed=x), x.randint() "
+              "-- receives None or the global module on any path); determinism of the forest's submission-order "
+              "gather for every completion order of the pool; and the closed obligation over the regenerated call "
+              "graph that no public callable with a `seed` parameter of the enumerated families reaches the global "
+              "generator, drops its seed, consumes a hash-ordered set or pool results in completion order. That the "
+              "extracted tables cover the real bodies is not proved: it is validated dynamically, API by API, in "
+              "fresh interpreters under different PYTHONHASHSEED, global-generator states and pool completion "
+              "orders, including the state of the global generators before / after every call and the forest's "
+              "rounds as seen by the pool.")
 LEVEL_NOTE = ("Trusted: Lean kernel; the AST fact extractor harness/c17_facts.py (name-based call resolution with "
               "receiver typing, calls through parameters / external libraries opaque, a reviewed list of int-only "
               "set iterations); CPython's random.Random(seed) and numpy's default_rng(seed) being functions of the "
@@ -50,7 +68,8 @@ LEVEL_NOTE = ("Trusted: Lean kernel; the AST fact extractor harness/c17_facts.py
 TECHNIQUE = ("Lean 4 proof (noninterference by induction on fuel; closed-set certificate checking) + source-derived "
              "fact table with a kernel `decide` obligation + subprocess differential testing under PYTHONHASHSEED / "
              "global-RNG perturbation")
-LEAN_MODULES = ["CotengraVerif.Lemmas.FlowNI", "CotengraVerif.Props.C17"]
+LEAN_MODULES = ["CotengraVerif.Lemmas.FlowNI", "CotengraVerif.Lemmas.RngFlowSound",
+                "CotengraVerif.Lemmas.GatherLemmas", "CotengraVerif.Props.C17"]
 THEOREMS = [
     "Cotengra.Flow.noninterference",
     "Cotengra.Flow.cleanFrom_sound",
@@ -65,6 +84,25 @@ THEOREMS = [
     "Cotengra.C17.no_shared_mutable_state",
     "Cotengra.C17.copies_are_private",
     "Cotengra.C17.shared_state_counterexample",
+    # round 3: worker completion order as a fourth source; data flow of the generator variables;
+    # gathering from an executor pool; get_rng
+    "Cotengra.Flow.clean_leaves_global_untouched",
+    "Cotengra.C17.seeded_apis_leave_global_untouched",
+    "Cotengra.C17.sched_read_interferes",
+    "Cotengra.C17.sched_row_rejected",
+    "Cotengra.RFlow.analyse_sound",
+    "Cotengra.RFlow.skeleton_ok_sound",
+    "Cotengra.C17.rng_dataflow_seeded",
+    "Cotengra.C17.rng_dataflow_no_bad_use",
+    "Cotengra.C17.agglom_none_counterexample",
+    "Cotengra.Gather.gatherSub_complete",
+    "Cotengra.Gather.forestRun_submission_deterministic",
+    "Cotengra.Gather.completion_gather_distinct_scores",
+    "Cotengra.C17.forest_gather_deterministic",
+    "Cotengra.C17.completion_order_tie_counterexample",
+    "Cotengra.C17.completion_order_harmless_without_ties",
+    "Cotengra.C17.get_rng_seeded_ignores_global",
+    "Cotengra.C17.get_rng_none_reads_global",
 ]
 TRUSTED = [
     "Lean 4.33 kernel; axioms ⊆ {propext, Classical.choice, Quot.sound}",
@@ -73,16 +111,28 @@ TRUSTED = [
     "REVIEWED_INT_SETS lists the set iterations reviewed as integer-only",
     "CPython random.Random(seed) / numpy default_rng(seed) / networkx / native kahypar are functions of their seed",
     "the canonicalisation of results in harness/c17_worker.py (trees -> node sets + ssa path + sliced indices)",
+    "harness/c17_rngflow.py: the syntactic extraction of the skeletons (which names carry a seed / generator, which "
+    "expressions are sinks, how Python statements map to skeleton statements); the data-flow analysis on them is "
+    "Lean's (`RFlow.analyse`, proved sound), its Python mirror is compared with it on every skeleton",
+    "CPython's concurrent.futures (Future / as_completed / wait) as used by the harness's OrderedPool",
 ]
 ASSUMPTIONS = [
     "scope of the static obligation: the families C17 enumerates (utils generators, random-greedy, RandomOptimizer, "
     "labels/kahypar partition builders, slice/SliceFinder/unslice_rand, get_subtree, subtree_reconfigure(_forest), "
     "simulated_anneal / parallel_temper); compressed-contraction optimizers, hyper-optimizer samplers and the "
     "flowcutter/quickbb/igraph wrappers are analysed and reported as notes only",
-    "parallel=False for the forest / tempering / random-greedy (process pools are out of scope)",
+    "parallel= is False or an executor OBJECT (the harness passes one that computes every task at submit and "
+    "completes the futures first-in-first-out, last-in-first-out or shuffled); real process / thread pools, dask "
+    "and ray (scatter pools) are not exercised: what they add beyond a completion order -- pickling, worker-side "
+    "global state -- is out of scope",
     "optimizer objects passed as arguments (`optimize=`) are part of the arguments",
 ]
-RULE = ("[every case also: the identical call repeated on the SAME object after a warm-up history, on copies, "
+RULE = ("[round 3: options that gate randomness take their boundary values (random_strength 0 / 0.0 / 1e-9 / default, "
+        "temperature 0 / degenerate ranges, groupsize / parts / cutoff, partitioner options); forest / tempering / "
+        "random-greedy also with an executor pool as parallel= on lattices with a single bond size (score ties), the "
+        "pool completing first-in-first-out / last-in-first-out / shuffled per interpreter; optimizer objects passed "
+        "as optimize=; the global generators' state is compared before / after every call] "
+        "[every case also: the identical call repeated on the SAME object after a warm-up history, on copies, "
         "after a call with another seed and through the inplace variant, inside one interpreter] "
         "per round a random network (6-30 tensors; single-letter, multi-character and unicode index labels so that "
         "string hashing matters) x random tree x every seeded API with randomised options; each case = (API, "
@@ -90,6 +140,9 @@ RULE = ("[every case also: the identical call repeated on the SAME object after 
         "PYTHONHASHSEED, distinct global-RNG seeds and perturbation, and a shuffled call order; non-trivial = no "
         "exception and the result changes when the seed changes; distinct by content hash")
 BUDGET = {"quick": 600, "thorough": 3000}
+
+# exercised, but outside the statement of C17 (no `seed` parameter): differences are notes
+NOTE_ONLY = {"slice_and_reconfigure_forest_globalseed"}
 
 WORKER = os.path.join(os.path.dirname(os.path.abspath(__file__)), "c17_worker.py")
 HASHSEEDS = ["1", "4242", "0", "4294967295", "77", "31337", "123456789", "99"]
@@ -148,7 +201,8 @@ def _facts():
 
 
 def gen_facts():
-    return {"CotengraVerif/Generated/FactsC17.lean": c17_facts.to_lean(_facts())}
+    return {"CotengraVerif/Generated/FactsC17.lean": c17_facts.to_lean(_facts()),
+            "CotengraVerif/Generated/FactsC17Rng.lean": c17_facts.rng_to_lean(_facts())}
 
 
 # ------------------------------------------------------------------------------------ cases
@@ -198,6 +252,38 @@ def _net_simple(rng, n, style):
     return j, None
 
 
+def _net_lattice(rng, style):
+    """a lattice with ONE bond size everywhere (many trees of exactly equal cost: score ties) and
+    a sequential or random contraction tree"""
+    dims = rng.choice([[3, 3], [4, 4], [3, 4], [2, 3, 2], [5, 2], [2, 2, 2], [4, 3], [6, 2]])
+    d = rng.choice([2, 2, 3])
+    cyc = rng.random() < 0.2
+    import itertools
+    sites = list(itertools.product(*[range(k) for k in dims]))
+    pos = {x: i for i, x in enumerate(sites)}
+    inputs = [[] for _ in sites]
+    ix = 0
+    for x in sites:
+        for ax in range(len(dims)):
+            y = list(x)
+            y[ax] += 1
+            if y[ax] >= dims[ax]:
+                if not (cyc and dims[ax] > 2):
+                    continue
+                y[ax] = 0
+            inputs[pos[x]].append(ix)
+            inputs[pos[tuple(y)]].append(ix)
+            ix += 1
+    n = len(sites)
+    j = {"inputs": [[_label(i, style) for i in t] for t in inputs], "output": [],
+         "size_dict": [[_label(k, style), d] for k in range(ix)]}
+    if rng.random() < 0.7:
+        ssa = [[0, 1]] + [[n + i - 1, i + 1] for i in range(1, n - 1)]
+    else:
+        ssa = gen.tree_to_ssa(gen.rand_tree(rng, n), n)
+    return j, ssa, {"dims": dims, "d": d, "cyclic": cyc}
+
+
 def gen_cases(rng, rounds, big=False):
     cases = []
     for rnd in range(rounds):
@@ -240,23 +326,58 @@ def gen_cases(rng, rounds, big=False):
         C("make_arrays_from_inputs", dtype=rng.choice(["float64", "float32", "complex128"]))
         C("make_arrays_from_eq", eq=rng.choice(["ab,bc,cd->ad", "abc,cde,ea->bd", "aab,bc->c"]))
         # --- path finders -------------------------------------------------------------------
+        # (the options that gate randomness take their boundary values too: temperature 0, a
+        # degenerate range, random_strength 0 / 0.0 / tiny / default ...)
         C("random_greedy_track_flops", ntrials=rng.randint(1, 6), use_ssa=rng.random() < 0.5,
           **rng.choice([{}, {"temperature": 0.5}, {"temperature": [0.1, 2.0], "costmod": [0.5, 2.0]},
-                        {"costmod": 1.0}]))
-        C("RandomGreedyOptimizer", max_repeats=rng.randint(1, 6), mode=rng.choice(["call", "search"]))
-        C("optimize_greedy", temperature=rng.choice([0.1, 0.7, 3.0]), costmod=rng.choice([1.0, 0.5, 2.0]))
+                        {"costmod": 1.0}, {"temperature": 0.0}, {"temperature": [1e-9, 1e-9], "costmod": [1.0, 1.0]},
+                        {"temperature": [1e-12, 1.0]}]))
+        C("RandomGreedyOptimizer", max_repeats=rng.randint(1, 6), mode=rng.choice(["call", "search"]),
+          **rng.choice([{}, {}, {"temperature": [1e-9, 1e-9]}, {"temperature": 0.5, "costmod": 1.0},
+                        {"parallel": "pool", "workers": rng.randint(1, 3)},
+                        {"parallel": "pool", "workers": rng.randint(2, 4), "temperature": [1e-9, 1e-9]}]))
+        C("optimize_greedy", temperature=rng.choice([0.1, 0.7, 3.0, 0.0, 0]), costmod=rng.choice([1.0, 0.5, 2.0]))
         C("RandomOptimizer", mode=rng.choice(["call", "search"]))
+        C("optimize_object", kind=rng.choice(["random_greedy", "random", "greedy_compressed"]),
+          via=rng.choice(["array_contract_tree", "array_contract_path", "rand_tree", "subtree_optimize"]))
         # partition-based builders on a larger, sparser network (small ones have a unique partition)
         nb = rng.choice([12, 16, 20, 26, 32])
         jb, _ = _net_simple(rng, nb, style)
         keep = base
         base = {"net": jb, "ssa_path": []}
-        C("labels_partition", parts=rng.randint(2, 4))
-        C("kahypar_membership", parts=rng.randint(2, 4))
+        C("labels_partition", parts=rng.randint(2, 4),
+          **rng.choice([{}, {"memory": rng.choice([-1, 0, 1])}, {"final_sweep": False},
+                        {"weight_nodes": rng.choice(["const", "linear", "log"]),
+                         "weight_edges": rng.choice(["const", "linear", "log"])},
+                        {"maxiter": rng.randint(1, 4)}, {"pop_decay": 0.5, "con_pow": 2}]))
+        C("kahypar_membership", parts=rng.randint(2, 4),
+          **rng.choice([{}, {"mode": rng.choice(["direct", "recursive"]), "objective": rng.choice(["cut", "km1"])},
+                        {"imbalance": rng.choice([0.01, 0.3])}, {"fix_output_nodes": True},
+                        {"weight_nodes": "linear"}, {"compress": rng.choice([0, 2])}]))
+        strengths = [0, 0.0, 1e-9, None, 0.01, 0.3, 1.0]          # None = the builder's default
         for b in ("labels", "kahypar"):
-            C(b + "_divide", cutoff=rng.randint(2, 4), parts=rng.randint(2, 3),
-              random_strength=rng.choice([0.01, 0.3, 1.0]))
-            C(b + "_agglom", groupsize=rng.randint(2, 4), random_strength=rng.choice([0.01, 0.3, 1.0]))
+            for variant in ("_divide", "_agglom"):
+                o = {}
+                rs = rng.choice(strengths)
+                if rs is not None:
+                    o["random_strength"] = rs
+                if rng.random() < 0.25:
+                    o["via"] = "trial_fn"
+                if variant == "_divide":
+                    o.update(cutoff=rng.randint(2, 4), parts=rng.randint(2, 4))
+                    if rng.random() < 0.3:
+                        o["parts_decay"] = rng.choice([0.0, 0.5, 1.0])
+                    if b == "kahypar" and rng.random() < 0.4:
+                        o.update(rng.choice([{"imbalance": 0.1, "imbalance_decay": rng.choice([-1, 0, 2])},
+                                             {"fix_output_nodes": "auto"}, {"mode": "recursive"},
+                                             {"objective": "km1"}]))
+                else:
+                    o.update(groupsize=rng.randint(2, 6))
+                    if rng.random() < 0.3:
+                        o["sub_optimize"] = rng.choice(["greedy", "optimal"])
+                if b == "labels" and rng.random() < 0.3:
+                    o.update(rng.choice([{"memory": 1}, {"final_sweep": False}, {"maxiter": 2}]))
+                C(b + variant, **o)
         C("greedy_compressed", chi=rng.choice([2, 4, 8]), temperature=rng.choice([0.2, 1.0]))
         C("greedy_span", temperature=rng.choice([0.2, 1.0]))
         base = keep
@@ -326,15 +447,52 @@ def gen_cases(rng, rounds, big=False):
             if ts is not None:
                 o.update(target_size=ts, slice_mode=rng.choice(["drift", "basic"]),
                          parallel_slice_mode=rng.choice(["temperature", "time", "constant"]))
+            if rng.random() < 0.5:
+                o.update(parallel="pool", workers=rng.randint(1, 3))
             C("parallel_temper", **o)
+        C("slice", temperature=rng.choice([0, 0.0]), target_slices=rng.choice([2, 4]))
+        C("SliceFinder", temperature=0.0, target_slices=4)
+        C("windowed_reconfigure", window_size=rng.randint(2, 5), max_iterations=rng.randint(1, 4),
+          score_temperature=rng.choice([0.0, 0.5]), queue_temperature=rng.choice([0.0, 1.0]))
+        # --- an executor pool as `parallel=`: lattices with one bond size (score ties) --------
+        keep2 = base
+        for _ in range(2):
+            jl, ssal, info = _net_lattice(rng, style)
+            base = {"net": jl, "ssa_path": ssal}
+            C("subtree_reconfigure_forest", num_trees=rng.randint(3, 5), num_restarts=rng.randint(2, 3),
+              subtree_maxiter=rng.randint(2, 5), subtree_size=rng.randint(3, 5), parallel="pool",
+              workers=rng.randint(1, 4),
+              **rng.choice([{}, {}, {"restart_fraction": rng.choice([0.3, 0.5, 0.8])},
+                            {"subtree_search": ["bfs", "dfs"], "subtree_select": ["max", "min"]},
+                            {"minimize": rng.choice(["flops", "size", "combo", "write"])}]))
+            cases[-1]["lattice"] = info
+            # random-greedy batches on the same lattice: many different paths of exactly equal flops
+            plainC("RandomGreedyOptimizer", max_repeats=rng.randint(4, 8), mode=rng.choice(["call", "search"]),
+                   parallel="pool", workers=rng.randint(2, 4), temperature=rng.choice([0.5, [0.3, 1.0], [1e-9, 1e-9]]))
+        C("parallel_temper", tsteps=2, numiter=2, num_trees=rng.randint(2, 4), parallel="pool",
+          workers=rng.randint(1, 3))
+        plainC("slice_and_reconfigure_forest_globalseed", target_size=rng.choice([8, 16, 64]),
+               num_trees=rng.randint(2, 3), max_repeats=4, parallel="pool",
+               reconf_opts={"subtree_size": 3, "maxiter": 2})
+        base = keep2
     return cases
 
 
 # ------------------------------------------------------------------------------------ running
-def _spawn(cases, hashseed, perturb, order=None, same_object=False):
+SCHEDS = ["fifo", "lifo", "shuffle"]
+
+
+def _sched_of(run, k):
+    """completion order of the executor pools in the k-th interpreter: third component of the run,
+    default by position (older replay files have two components)"""
+    return run[2] if len(run) > 2 else SCHEDS[k % 3]
+
+
+def _spawn(cases, hashseed, perturb, order=None, same_object=False, sched="fifo"):
     env = dict(os.environ, PYTHONHASHSEED=str(hashseed))
     env.pop("PYTHONPATH", None)
-    job = {"repo": common.REPO, "perturb": perturb, "cases": cases, "order": order, "same_object": same_object}
+    job = {"repo": common.REPO, "perturb": perturb, "cases": cases, "order": order, "same_object": same_object,
+           "sched": sched}
     p = subprocess.Popen([common.PY, WORKER], stdin=subprocess.PIPE, stdout=subprocess.PIPE,
                          stderr=subprocess.PIPE, text=True, env=env)
     p._job = json.dumps(job)
@@ -346,12 +504,13 @@ def run_workers(cases, runs, shuffle_rng=None, timeout=900, same_object=()):
     `same_object`: positions in `runs` whose interpreter also repeats every call on the same
     object (c17_worker.same_object_checks)."""
     procs = []
-    for k, (hs, pert) in enumerate(runs):
+    for k, run in enumerate(runs):
+        hs, pert = run[0], run[1]
         order = None
         if shuffle_rng is not None and k > 0:
             order = list(range(len(cases)))
             shuffle_rng.shuffle(order)
-        procs.append(_spawn(cases, hs, pert, order, same_object=k in same_object))
+        procs.append(_spawn(cases, hs, pert, order, same_object=k in same_object, sched=_sched_of(run, k)))
     outs = []
     # feed all, then collect (the workers run in parallel)
     import threading
@@ -376,19 +535,29 @@ def run_workers(cases, runs, shuffle_rng=None, timeout=900, same_object=()):
     return outs
 
 
+def _val(r):
+    """results of calls that used an executor pool are {"value": .., "pool_rounds": ..}"""
+    return r["value"] if isinstance(r, dict) and "pool_rounds" in r else r
+
+
 def _is_exc(r):
+    r = _val(r)
     return isinstance(r, dict) and "exception" in r
 
 
 def _key(r):
     if _is_exc(r):
-        return json.dumps({"exception": r["exception"]})
+        return json.dumps({"exception": _val(r)["exception"]})
     return json.dumps(r, sort_keys=True)
 
 
 def _sig(case):
     o = case.get("opts", {})
-    cls = {k: o[k] for k in ("subtree_search", "select", "mode", "slice_mode") if k in o}
+    cls = {k: o[k] for k in ("subtree_search", "select", "mode", "slice_mode", "parallel") if k in o}
+    if "random_strength" in o:
+        cls["random_strength"] = "zero" if not o["random_strength"] else "nonzero"
+    if o.get("temperature") in (0, 0.0, [0.0, 0.0], [1e-9, 1e-9]):
+        cls["temperature"] = "zero"
     cls = {k: (v if isinstance(v, (str, int)) else str(v)) for k, v in cls.items()}
     return {"site": case["api"], **cls}
 
@@ -400,7 +569,7 @@ def _minimal_replay(case, runs):
 def _check_single(case, runs):
     """run one case alone; True = all results identical"""
     outs = run_workers([case], runs)
-    return len({_key(o["results"]["0"]) for o in outs}) == 1
+    return len({_key(_val(o["results"]["0"])) for o in outs}) == 1
 
 
 def compare(ctx, cases, outs, runs, sens=None):
@@ -408,13 +577,27 @@ def compare(ctx, cases, outs, runs, sens=None):
     failing = {}
     for pos, case in enumerate(cases):
         rs = [o["results"][str(pos)] for o in outs]
-        keys = {_key(r) for r in rs}
+        # the verdict is about the RESULT; what an executor pool was handed round by round is
+        # intermediate state: a difference there alone is a broken correspondence, not a violation
+        keys = {_key(_val(r)) for r in rs}
+        if len(keys) == 1 and len({_key(r) for r in rs}) > 1:
+            ctx.count("pool_intermediate_differs:" + case["api"])
+            ctx.corr_broken("the trees handed to / returned by the executor pool differ between completion "
+                            "orders although the final result is the same",
+                            {"api": case["api"], "seed": case["seed"], "opts": case.get("opts")})
         api = case["api"]
         exc = _is_exc(rs[0])
         if exc:
-            ctx.count("exception:" + api + ":" + rs[0]["exception"])
+            ctx.count("exception:" + api + ":" + _val(rs[0])["exception"])
         sensitive = bool(sens) and sens.get(pos)
         ctx.count("api:" + api)
+        if case.get("opts", {}).get("parallel") == "pool":
+            ctx.count("pool:" + api)
+            if len({_key(_val(r)) for r in rs}) > 1:
+                ctx.count("pool_result_depends_on_completion_order:" + api)
+        for kk, vv in _sig(case).items():
+            if kk in ("random_strength", "temperature"):
+                ctx.count(f"gate:{api}:{kk}={vv}")
         if sensitive:
             ctx.count("seed_sensitive:" + api)
         ctx.case({"api": api, "seed": case["seed"], "opts": case.get("opts"),
@@ -422,7 +605,24 @@ def compare(ctx, cases, outs, runs, sens=None):
                  nontrivial=(not exc) and sensitive)
         ctx.traces += 1
         if len(keys) > 1:
+            if api in NOTE_ONLY:
+                ctx.count("note_only_differs:" + api)
+                ctx.notes.setdefault("outside_scope_nondeterministic", []).append(
+                    {"api": api, "seed": case["seed"], "opts": case.get("opts")})
+                continue
             failing.setdefault(api, []).append(pos)
+    # the state of the process-global generators before / after every seeded call
+    touched = {}
+    for o in outs:
+        for pos in o.get("global_touched", []):
+            api = cases[pos]["api"]
+            ctx.count("global_rng_touched:" + api)
+            touched.setdefault(api, cases[pos])
+    ctx.count("global_rng_untouched_checks", len(cases) * len(outs))
+    for api, case in sorted(touched.items()):
+        ctx.corr_broken("a seeded call advanced the process-global `random` / `numpy.random` generator "
+                        "(Flow.clean_leaves_global_untouched: a clean entry leaves it where it was)",
+                        {"api": api, "seed": case["seed"], "opts": case.get("opts")})
     # the same call repeated on the same object / copies inside one interpreter
     for o in outs:
         for pos_s, labels in (o.get("selfcheck") or {}).items():
@@ -452,20 +652,72 @@ def compare(ctx, cases, outs, runs, sens=None):
             if k in seen:
                 continue
             seen.add(k)
-            extra = [("9001", 515151), ("17", 626262), ("5", 737373), ("271828", 848484), ("6", 959595)]
+            extra = [("9001", 515151, "lifo"), ("17", 626262, "fifo"), ("5", 737373, "shuffle"),
+                     ("271828", 848484, "lifo"), ("6", 959595, "shuffle")]
             alone = not _check_single(case, list(runs[:3]) + extra)
             rep = _minimal_replay(case, list(runs[:3]) + extra) if alone else \
                 {"cases": cases[:pos + 1], "runs": [list(r) for r in runs], "pos": pos}
             ctx.violation(sig, rep,
                           f"{api}{ {k: v for k, v in sig.items() if k != 'site'} } with the same arguments and "
                           f"seed={case['seed']} returns different results in fresh interpreters "
-                          f"(PYTHONHASHSEED / global RNG state differ)")
+                          f"(PYTHONHASHSEED / global RNG state"
+                          + (" / completion order of the executor pool passed as parallel=" if
+                             case.get("opts", {}).get("parallel") == "pool" else "") + " differ)")
     return set(failing)
 
 
-def dynamic_round(ctx, rng, rounds, nruns, big=False):
+def gather_tie(ctx, drv, cases, outs):
+    """intermediate state of the forest against `Model/Gather.lean`: in every interpreter, round by
+    round, the trees that the real code submits to the pool in round r+1 must be the parents the
+    model selects from round r's results -- stable sort by score of the results gathered in
+    SUBMISSION order, the best `keep` cyclically -- and the returned tree the first of the last
+    round, whatever the completion order of the pool was"""
+    for pos, case in enumerate(cases):
+        o = case.get("opts", {})
+        if case["api"] != "subtree_reconfigure_forest" or o.get("parallel") != "pool":
+            continue
+        num_trees = o.get("num_trees", 8)
+        keep = max(1, int(num_trees * o.get("restart_fraction", 0.5)))
+        for out in outs:
+            r = out["results"][str(pos)]
+            orders = (out.get("pool_orders") or {}).get(str(pos))
+            if _is_exc(r) or not orders or any("error" in x for x in r["pool_rounds"]):
+                continue
+            rounds = r["pool_rounds"]
+            ok = True
+            why = None
+            for i, rd in enumerate(rounds):
+                vals = sorted(set(rd["score"]), key=float)
+                ranks = [vals.index(x) for x in rd["score"]]
+                if len(set(ranks)) < len(ranks):
+                    ctx.count("gather:round_with_score_tie")
+                m = drv.call("c17.gather", mode="submission", scores=ranks, order=orders[i], keep=keep,
+                             num_trees=num_trees)
+                ctx.traces += 1
+                ctx.count("gather:rounds_checked")
+                ctx.count("gather:order=" + out.get("sched", "?"))
+                if "error" in m or not m.get("valid"):
+                    ok, why = False, f"driver: {m}"
+                    break
+                if i + 1 < len(rounds):
+                    want = [rd["result"][p] for p in m["parents"]]
+                    if rounds[i + 1]["parent"] != want:
+                        ok, why = False, f"round {i + 1}: submitted parents differ from the model's selection"
+                        break
+                else:
+                    final = json.dumps([r["value"]["ssa_path"], sorted(k for k, _ in r["value"]["sliced"])])
+                    if rd["result"][m["sorted"][0]] != final:
+                        ok, why = False, "returned tree is not the first of the model's sorted last round"
+            if not ok:
+                ctx.corr_broken("forest rounds observed through the pool differ from Model/Gather (submission-order "
+                                "gather + stable sort + best-keep cycle): " + str(why),
+                                {"api": case["api"], "seed": case["seed"], "opts": o, "sched": out.get("sched")})
+                return
+
+
+def dynamic_round(ctx, rng, rounds, nruns, big=False, drv=None):
     cases = gen_cases(rng, rounds, big=big)
-    runs = [(HASHSEEDS[k % len(HASHSEEDS)], rng.randrange(1 << 30)) for k in range(nruns)]
+    runs = [(HASHSEEDS[k % len(HASHSEEDS)], rng.randrange(1 << 30), SCHEDS[k % 3]) for k in range(nruns)]
     shuf = _random.Random(rng.randrange(1 << 30))
     outs = run_workers(cases, runs, shuffle_rng=shuf, same_object=(0,))
     ctx.count("same_object_cases", len(cases))
@@ -473,11 +725,13 @@ def dynamic_round(ctx, rng, rounds, nruns, big=False):
     # seed sensitivity (non-vacuity): the same cases with seed+1 in one more interpreter
     cases2 = [dict(c, seed=c["seed"] + 1) for c in cases]
     o2 = run_workers(cases2, [runs[0]])[0]
-    sens = {pos: _key(o2["results"][str(pos)]) != _key(outs[0]["results"][str(pos)])
+    sens = {pos: _key(_val(o2["results"][str(pos)])) != _key(_val(outs[0]["results"][str(pos)]))
             for pos in range(len(cases))}
     probes = {o.get("probe") for o in outs}
     ctx.notes["distinct_string_hashes_seen"] = max(ctx.notes.get("distinct_string_hashes_seen", 0), len(probes))
     failing = compare(ctx, cases, outs, runs, sens)
+    if drv is not None:
+        gather_tie(ctx, drv, cases, outs)
     return cases, failing
 
 
@@ -497,7 +751,7 @@ def static_side(ctx, drv):
                                                        if not v["in_scope"] and not v["clean"])
     # (E) the Lean decision procedure on the same table, entry by entry
     ents = fx["entries"] + fx["extras"]
-    resp = drv.call("c17.clean", table=[[r["calls"], r["rdGlobal"], r["rdHash"]] for r in t],
+    resp = drv.call("c17.clean", table=[[r["calls"], r["rdGlobal"], r["rdHash"], r["rdSched"]] for r in t],
                     entries=[e["id"] for e in ents])
     if "error" in resp:
         ctx.corr_broken("driver error: " + resp["error"])
@@ -506,13 +760,62 @@ def static_side(ctx, drv):
             v = verd[e["q"]]
             ctx.traces += 1
             ctx.count("static:" + ("clean" if v["clean"] else "tainted"))
-            want_taint = sorted(i for i in c17_facts.reach(t, e["id"]) if t[i]["rdGlobal"] or t[i]["rdHash"])
+            want_taint = sorted(i for i in c17_facts.reach(t, e["id"])
+                                if t[i]["rdGlobal"] or t[i]["rdHash"] or t[i]["rdSched"])
             if row["clean"] != v["clean"] or row["reach"] != v["reach"] or row["tainted"] != want_taint:
                 ctx.corr_broken("Lean cleanFrom and Python reachability disagree", {"entry": e["q"], "lean": row})
         in_ids = [e["id"] for e in fx["entries"]]
-        resp2 = drv.call("c17.clean", table=[[r["calls"], r["rdGlobal"], r["rdHash"]] for r in t], entries=in_ids)
+        resp2 = drv.call("c17.clean", table=[[r["calls"], r["rdGlobal"], r["rdHash"], r["rdSched"]] for r in t], entries=in_ids)
         if resp2.get("all") != all(verd[e["q"]]["clean"] for e in fx["entries"]):
             ctx.corr_broken("Lean cleanAll and Python reachability disagree")
+    # (E) the generator-variable data flow: Lean's verified `analyse` against the Python mirror that
+    # decided the edge modes, skeleton by skeleton
+    sks = fx["skeletons"]
+    ctx.notes["rng_skeletons"] = {"count": len(sks), "sinks": sum(len(k["sinks"]) for k in sks),
+                                  "with_branch_on_none": sum(1 for k in sks if "iteNone" in json.dumps(k["body"])),
+                                  "with_loops": sum(1 for k in sks if '"loop"' in json.dumps(k["body"])),
+                                  "bad": {k["q"]: k["bad"] for k in sks if k["bad"]}}
+    ctx.obligation("the generator-variable skeletons could be extracted for the seeded functions",
+                   len(sks) >= 30, f"{len(sks)} skeletons")
+    resp4 = drv.call("c17.rngflow", skeletons=[{"nvars": k["nvars"], "attrs": k["attrs"], "body": k["body"]}
+                                               for k in sks])
+    if "error" in resp4:
+        ctx.corr_broken("driver error (c17.rngflow): " + resp4["error"])
+    else:
+        for k, row in zip(sks, resp4["results"]):
+            ctx.traces += 1
+            ctx.count("rngflow:" + ("ok" if not k["bad"] else "bad-sink"))
+            if row["bad"] != k["bad"]:
+                ctx.corr_broken("Lean RFlow.analyse and the Python mirror disagree on a skeleton",
+                                {"fn": k["q"], "lean": row["bad"], "python": k["bad"]})
+    # the analysis itself on fixed probes with known answers (both implementations)
+    from . import c17_rngflow as rf
+    probes = [
+        # (skeleton body, nvars, attrs, expected bad sinks)
+        (["seq", ["ite", ["assign", 1, ["getRng", ["var", 0]]], ["assign", 1, ["none"]]],
+          ["loop", ["use", 2, True, ["var", 1]]]], 2, [], [2]),
+        (["seq", ["ite", ["assign", 1, ["getRng", ["var", 0]]], ["assign", 1, ["none"]]],
+          ["iteNone", 1, ["skip"], ["use", 0, False, ["var", 1]]]], 2, [], []),
+        (["use", 0, False, ["or", ["var", 0], ["global"]]], 1, [], [0]),          # `(seed or random)`: seed 0
+        (["seq", ["assign", 1, ["getRng", ["var", 0]]], ["use", 0, False, ["or", ["var", 1], ["global"]]]], 2, [], []),
+        (["seq", ["loop", ["seq", ["ite", ["brk"], ["skip"]], ["assign", 1, ["none"]]]],
+          ["use", 0, True, ["var", 1]]], 2, [1], [0]),
+        (["seq", ["loop", ["seq", ["assign", 1, ["none"]], ["seq", ["ite", ["brk"], ["skip"]],
+                                                               ["assign", 1, ["getRng", ["var", 0]]]]]],
+          ["use", 0, True, ["var", 1]]], 2, [1], [0]),
+        (["seq", ["ite", ["ret"], ["assign", 1, ["draw", ["getRng", ["var", 0]]]]],
+          ["use", 0, True, ["var", 1]]], 2, [], []),
+        (["use", 0, True, ["getRng", ["none"]]], 1, [], [0]),
+        (["use", 0, True, ["both", ["var", 0], ["const"]]], 1, [], []),
+        (["use", 0, True, ["choice", ["var", 0], ["draw", ["global"]]]], 1, [], [0]),
+    ]
+    r5 = drv.call("c17.rngflow", skeletons=[{"nvars": n, "attrs": a, "body": b} for b, n, a, _ in probes])
+    for (b, n, a, want), row in zip(probes, r5.get("results", [])):
+        got_py = rf.bad_sinks({"body": b, "nvars": n, "attrs": a})
+        ctx.traces += 1
+        if row["bad"] != want or got_py != want:
+            ctx.corr_broken("data-flow probe: unexpected verdict", {"body": b, "want": want, "lean": row["bad"],
+                                                                    "python": got_py})
     # hidden shared state: (copy depth, in-place mutation depth) of every attribute of set_state_from
     sh = fx["sharing"]
     ctx.notes["sharing_table"] = [f"{r['cls']}.{r['attr']}: copy {r['copy']}, mutated {r['mut']}"
@@ -569,6 +872,73 @@ def get_rng_tie(ctx, drv):
                 ctx.corr_broken("model Env.read and real get_rng disagree", {"kind": kind, "seed": seed})
 
 
+def get_rng_tie2(ctx, drv):
+    """every branch of the real get_rng against `GetRng.drawsVia`: int / str seed, None, the `random`
+    module itself, a shared `random.Random` instance (draws advance the caller's generator), an
+    object `random.Random` cannot be seeded with (numpy Generator -> TypeError)"""
+    import numpy as np
+    import cotengra as ctg
+    rng = ctx.rng
+    for _ in range(40 if ctx.tier == "quick" else 300):
+        n = rng.randint(0, 6)
+        gseed = rng.randrange(10 ** 6)
+        kind = rng.choice(["int", "int0", "str", "none", "module", "instance", "unsupported"])
+        seed = 0 if kind == "int0" else (f"s{rng.randrange(10 ** 6)}" if kind == "str" else rng.randrange(10 ** 6))
+        extra = rng.randint(0, 3)
+        ref = _random.Random(seed)
+        seeded_tape = [ref.randrange(1 << 30) for _ in range(n + extra + 2)]
+        refg = _random.Random(gseed)
+        global_tape = [refg.randrange(1 << 30) for _ in range(n + extra + 2)]
+        _random.seed(gseed)
+        inst = None
+        err = None
+        try:
+            if kind in ("int", "int0", "str"):
+                r = ctg.utils.get_rng(seed)
+            elif kind == "none":
+                r = ctg.utils.get_rng(None)
+            elif kind == "module":
+                r = ctg.utils.get_rng(_random)
+            elif kind == "instance":
+                inst = _random.Random(seed)
+                r = ctg.utils.get_rng(inst)
+            else:
+                r = ctg.utils.get_rng(np.random.default_rng(seed))
+            got = [r.randrange(1 << 30) for _ in range(n)]
+        except TypeError:
+            err, got = "TypeError", None
+        after_global = [_random.randrange(1 << 30) for _ in range(extra)]
+        after_inst = [inst.randrange(1 << 30) for _ in range(extra)] if inst is not None else None
+        mk = {"int0": "int", "str": "int"}.get(kind, kind)
+        m = drv.call("c17.getrng", kind=mk, n=n, seeded=seeded_tape, **{"global": global_tape})
+        ctx.traces += 1
+        ctx.count("get_rng2:" + kind)
+        if err or m.get("error"):
+            if (err or None) != (m.get("error") or None):
+                ctx.corr_broken("GetRng.getRng and the real get_rng disagree about TypeError", {"kind": kind})
+            continue
+        gp = m["global_pos"]
+        want_after_g = global_tape[gp:gp + extra]
+        ip = m["instance_pos"]
+        ok = (m["values"] == got and after_global == want_after_g and
+              (after_inst is None or after_inst == seeded_tape[ip:ip + extra]))
+        if not ok:
+            # oracle (independent of the model): a seeded call reproduces random.Random(seed) and
+            # leaves the global generator alone; None / the module draw from the global generator
+            seeded_kind = kind in ("int", "int0", "str", "instance")
+            want = seeded_tape[:n] if seeded_kind else global_tape[:n]
+            want_g = global_tape[:extra] if seeded_kind else global_tape[n:n + extra]
+            if got != want or after_global != want_g:
+                ctx.violation({"site": "get_rng", "kind": kind},
+                              {"get_rng": {"kind": {"int0": "int", "str": "int", "module": "none"}.get(kind, kind),
+                                           "seed": seed if not isinstance(seed, str) else 0, "gseed": gseed,
+                                           "n": max(n, 1)}},
+                              f"get_rng({kind}) does not draw from "
+                              f"{'random.Random(seed)' if seeded_kind else 'the global generator'}")
+            else:
+                ctx.corr_broken("GetRng.drawsVia and the real get_rng disagree", {"kind": kind, "seed": seed})
+
+
 # ------------------------------------------------------------------------------------ entry points
 def _replay_corpus(ctx):
     d = os.path.join(common.VERIF, "corpus", PROP)
@@ -589,13 +959,14 @@ def run(ctx, drv):
     _replay_corpus(ctx)
     verd = static_side(ctx, drv)
     get_rng_tie(ctx, drv)
+    get_rng_tie2(ctx, drv)
     nruns = 3 if ctx.tier == "quick" else 6
     rounds = 24 if ctx.tier == "quick" else 160
     failing = set()
     done = 0
     while done < rounds and ctx.time_left() > 60:
         k = min(5, rounds - done)
-        _, f = dynamic_round(ctx, ctx.rng, k, nruns, big=(done % 10 == 5))
+        _, f = dynamic_round(ctx, ctx.rng, k, nruns, big=(done % 10 == 5), drv=drv)
         failing |= f
         done += k
     # validation of the extractor's verdicts: a dynamically non-deterministic API must be tainted
@@ -649,4 +1020,4 @@ def replay(ctx, obj):
     pos = obj.get("pos", len(cases) - 1)
     if any((o.get("selfcheck") or {}).get(str(pos)) for o in outs):
         return False
-    return len({_key(o["results"][str(pos)]) for o in outs}) == 1
+    return len({_key(_val(o["results"][str(pos)])) for o in outs}) == 1
